@@ -54,13 +54,28 @@ def run(tier):
             reqs = reqs[:40]
         srv = N.Server(tftpd, sb["srv"], single=single, read_only=ro, overwrite=ow, keep=keep,
                        send_dir=sb["srv"] if dist else None, recv_dir=sb["rcv"] if dist else None, logdir=sb["logs"])
+        pool = [N._sock(timeout=2.0) for _ in range(3)]
         with srv:
             for seqno, (kind, target, oname) in enumerate(reqs):
                 evaluations += 1
                 opts = OPTSETS[oname]
                 before = N.snapshot(sb["root"])
                 replay = {"engine": "net", "config": cfgname, "request": [kind, target, oname], "sequence_so_far": reqs[:seqno + 1], "server_args": srv.args}
-                s = N._sock(timeout=2.0)
+                # two thirds of the requests come from a small pool of long-lived client endpoints (a client that issues
+                # several requests from one socket), the rest from fresh ones
+                own_socket = ctx.rng.random() < 0.34
+                if own_socket:
+                    s = N._sock(timeout=2.0)
+                else:
+                    s = pool[ctx.rng.randrange(len(pool))]
+                    s.settimeout(0.05)
+                    try:
+                        while True:
+                            s.recvfrom(70000)   # flush leftovers of the previous use
+                    except OSError:
+                        pass
+                    s.settimeout(2.0)
+                replay["client_endpoint"] = "fresh" if own_socket else f"reused {s.getsockname()[1]}"
                 try:
                     if kind == "RRQ":
                         state = "existing" if target in send_files else "missing"
@@ -128,7 +143,8 @@ def run(tier):
                     if len(samples) < 4 and expect != "served":
                         samples.append({"config": cfgname, "request": [kind, target, oname], "target_state": state, "expected": expect, "first_reply": str(tr.first)[:120]})
                 finally:
-                    s.close()
+                    if own_socket:
+                        s.close()
                 if not srv.alive():
                     v.note_inconclusive(f"{cfgname}: server exited (status {srv.exit_status()}) during the sequence: {srv.log_tail(300)}")
                     break
